@@ -16,6 +16,19 @@ var opTypes = map[string]token.Type{
 
 func tk(tt token.Type, lit string) token.Token { return token.Token{Type: tt, Literal: lit} }
 
+// bareOperatorTokens (C03, single goroutine): operator nodes are assembled with a token that carries the type only, the
+// way a plugin does that fills in the struct fields the printers document (Operator, Left, Right, ...) and sets the
+// token type for the precedence table. Literal and identifier nodes keep their token text (it is their content).
+var bareOperatorTokens bool
+
+// otk is the token of an operator node.
+func otk(tt token.Type, lit string) token.Token {
+	if bareOperatorTokens {
+		return token.Token{Type: tt}
+	}
+	return token.Token{Type: tt, Literal: lit}
+}
+
 func ident(name string) *ast.Identifier {
 	return &ast.Identifier{Token: tk(token.IDENT, name), Value: name}
 }
@@ -81,30 +94,30 @@ func toExpr(n *gen.Node) ast.Expression {
 		f.Body = toBlock(n.Kids)
 		return f
 	case gen.KUn:
-		return &ast.UnaryExpression{Token: tk(opTypes[n.Op], n.Op), Operator: n.Op, Right: toExpr(n.Kids[0])}
+		return &ast.UnaryExpression{Token: otk(opTypes[n.Op], n.Op), Operator: n.Op, Right: toExpr(n.Kids[0])}
 	case gen.KPost:
-		return &ast.PostfixExpression{Token: tk(opTypes[n.Op], n.Op), Operator: n.Op, Left: toExpr(n.Kids[0])}
+		return &ast.PostfixExpression{Token: otk(opTypes[n.Op], n.Op), Operator: n.Op, Left: toExpr(n.Kids[0])}
 	case gen.KBin:
-		b := &ast.BinaryExpression{Token: tk(opTypes[n.Op], n.Op), Operator: n.Op, Left: toExpr(n.Kids[0]), Right: toExpr(n.Kids[1])}
+		b := &ast.BinaryExpression{Token: otk(opTypes[n.Op], n.Op), Operator: n.Op, Left: toExpr(n.Kids[0]), Right: toExpr(n.Kids[1])}
 		if assembledBins != nil {
 			assembledBins[n] = append(assembledBins[n], b)
 		}
 		return b
 	case gen.KAsg:
 		if n.Op == "=" {
-			return &ast.AssignmentExpression{Token: tk(token.ASSIGN, "="), Left: toExpr(n.Kids[0]), Value: toExpr(n.Kids[1])}
+			return &ast.AssignmentExpression{Token: otk(token.ASSIGN, "="), Left: toExpr(n.Kids[0]), Value: toExpr(n.Kids[1])}
 		}
-		return &ast.CompoundAssignmentExpression{Token: tk(opTypes[n.Op], n.Op), Operator: n.Op[:1], Left: toExpr(n.Kids[0]), Value: toExpr(n.Kids[1])}
+		return &ast.CompoundAssignmentExpression{Token: otk(opTypes[n.Op], n.Op), Operator: n.Op[:1], Left: toExpr(n.Kids[0]), Value: toExpr(n.Kids[1])}
 	case gen.KCall:
-		c := &ast.CallExpression{Token: tk(token.LPAREN, "("), Function: toExpr(n.Kids[0]), Arguments: []ast.Expression{}}
+		c := &ast.CallExpression{Token: otk(token.LPAREN, "("), Function: toExpr(n.Kids[0]), Arguments: []ast.Expression{}}
 		for _, a := range n.Kids[1:] {
 			c.Arguments = append(c.Arguments, toExpr(a))
 		}
 		return c
 	case gen.KDot:
-		return &ast.MemberExpression{Token: tk(token.DOT, "."), Object: toExpr(n.Kids[0]), Property: ident(n.Name)}
+		return &ast.MemberExpression{Token: otk(token.DOT, "."), Object: toExpr(n.Kids[0]), Property: ident(n.Name)}
 	case gen.KIdx:
-		return &ast.MemberExpression{Token: tk(token.LBRACKET, "["), Object: toExpr(n.Kids[0]), Property: toExpr(n.Kids[1]), Computed: true}
+		return &ast.MemberExpression{Token: otk(token.LBRACKET, "["), Object: toExpr(n.Kids[0]), Property: toExpr(n.Kids[1]), Computed: true}
 	case gen.KLet:
 		le := &ast.LetExpression{Token: tk(token.LET, "let"), Name: ident(n.Name)}
 		if len(n.Kids) > 0 {
